@@ -99,8 +99,9 @@ pub fn check(a: &Analysis, _aux: &mut Aux, t: &mut Tally) -> Vec<Violation> {
                         if th.window == 0 {
                             bad("synack-window", "SYN-ACK with a zero window".into());
                         }
-                        if th.doff != 5 || th.seg_len != 20 {
-                            // the responder sends no options: a SYN-ACK is exactly the 20-byte header
+                        if th.seg_len != th.doff as usize * 4 {
+                            // the data offset must describe the real header: a SYN-ACK carries no payload
+                            // (C06), so the segment is exactly its header (options, if any, included)
                             bad("tcp-data-offset", format!("SYN-ACK of {} bytes with data offset {}", th.seg_len, th.doff));
                         }
                     }
